@@ -68,6 +68,11 @@ META["C12"] = dict(
     note=CONV_NOTE + " Spec/Identity.lean is a transcription of the 3GPP figures; the Go-side oracle (tools/harness/convert12.go) is a second independent reading used for counterexample search.",
     technique="Lean 4 proof (model = independent layout/text specification for all valid identities; round trips as corollaries) + Go/Lean correspondence + layout/round-trip oracle on the real code")
 
+META["C13"] = dict(
+    text="Kernel-checked on the hand model against decoders written from the TS 24.501 figures (Spec/Lists.lean): RequestedNssaiToModels on a decoded IE equals the specification NSSAI decoder on EVERY byte string (values when it decodes, an error otherwise — reserved length octets and truncated elements included; induction over the walker with an offset/suffix invariant); it recovers every list of S-NSSAIs written by SnssaiToNas; the specification decoders recover exactly the input from RejectedNssaiToNas (all entries with their cause, contents up to 255 octets), TaiListToNas (1..16 identities, one PLMN -> type 00, several -> type 10), PartialServiceAreaListToNas (1..16 TACs, allowed type bit), LadnToNas (any DNN up to 255 octets + TAI list); LadnToModels recovers every well-formed LADN indication. Defects F5, F13 were repaired in /repo (fix: commits).",
+    note=CONV_NOTE + " Spec/Lists.lean is a transcription of the 3GPP figures; tools/harness/convert13.go holds a second independent set of decoders used as the oracle.",
+    technique="Lean 4 proof (library decoder = specification decoder for all bytes; specification decoder o library encoder = id for all lists in range) + Go/Lean correspondence + independent-decoder oracle on the real code")
+
 NOT_APPLICABLE = {
  "C01": "check not built yet in this round (Lean model + correspondence planned, see DESIGN.md section 4); not claimed until it runs",
  "C02": "check not built yet in this round (Lean model + correspondence planned, see DESIGN.md section 4); not claimed until it runs",
